@@ -21,6 +21,16 @@
 //! first family, and its first segment starts under the harness's control whichever function of
 //! h3 the error then takes.
 //!
+//! Two set-up dimensions carry state into the race. (a) Whose waker: the driver was never polled /
+//! polled before with the waker of the task that makes the raced poll / polled before with ANOTHER
+//! waker A (the driver was moved to another task, or is polled through a combinator that hands out
+//! its own wakers) while the raced poll and every later poll get waker B. "The driver's waker" in
+//! oracle 4 is the one passed to its most recent poll that returned Pending, i.e. B; wakes of A are
+//! logged apart (`EvKind::StaleWake`) and announce nothing. (b) `Extra::Closing`: graceful shutdown
+//! has begun (GOAWAY sent by `shutdown`, or the peer's GOAWAY processed), the staged requests are in
+//! flight inside the grace set; a connection error is as fatal as before and oracle 2 still wants
+//! the QUIC connection closed with the winner's code.
+//!
 //! A full driver poll (`server::Connection::accept()`, `client::Connection::poll_close()`) passes
 //! through `poll_connection_error` 3..5 times; `ConnectionInner::poll_accept_bi` and
 //! `poll_accept_recv` (public through the `inner` field; the latter is what h3-webtransport's
@@ -41,7 +51,8 @@
 //!  3. every later driver call returns the winner; every handle that reports a connection error
 //!     reports the winner (variant, code, reason);
 //!  4. no lost wake-up: driver's poll returned Pending + an error is stored => the driver's waker
-//!     was woken at or after the segment that stored it (a wake before the store announces nothing).
+//!     (the one handed to that poll) was woken at or after the segment that stored it (a wake before
+//!     the store announces nothing, nor does a wake of the waker of an earlier poll made for another task).
 
 use crate::panics;
 use crate::racerig::{self as rr, Dfs, EvKind, Event, Mode, Rig, SeqChooser};
@@ -71,9 +82,16 @@ pub fn def() -> PropDef {
         rule: "a case = (scenario, schedule). Scenario = (h3 side server|client; driver call = full driver poll \
                [server accept() / client poll_close(): 3..5 passes through poll_connection_error] | \
                inner.poll_accept_bi | inner.poll_accept_recv [1 pass]; driver polled before with the same \
-               task's waker | never polled; extra = none | peer CONNECTION_CLOSE(0x101) already delivered | an \
+               task's waker | never polled | polled before with ANOTHER waker A, the raced poll and all later \
+               polls with waker B (driver moved to another task / polled through a combinator); extra = none | \
+               peer CONNECTION_CLOSE(0x101) already delivered | an \
                error the driver finds itself in the rest of its poll (control stream FIN 0x104, \
-               server-initiated bidi 0x103, second control stream 0x103); a multiset of 1..3 request-handle \
+               server-initiated bidi 0x103, second control stream 0x103) | graceful shutdown begun with the \
+               staged requests in flight inside the grace set (server: shutdown(0) completed, GOAWAY written - with the next request id when accept() handed out \
+               the requests, with 0 when the extension path took the streams from the transport and h3 accepted none itself; \
+               client: full driver polled before has processed the peer's GOAWAY(next request id), otherwise \
+               its own shutdown(0)); another-waker shapes: extra none|driver-detects only, 3 representative \
+               handle calls; shutdown shapes: same/never waker, 5 handle calls, one per expected close; a multiset of 1..3 request-handle \
                calls each raising a connection error in one poll: first frame not HEADERS 0x105, CANCEL_PUSH \
                on a request stream 0x105, HTTP/2 frame type 0x105, frame cut by FIN 0x106, undecodable QPACK \
                trailers 0x200, GOAWAY already buffered in h3 0x105 (raised without a transport call), drop of \
@@ -85,9 +103,10 @@ pub fn def() -> PropDef {
                into store|wake (a transport-reported error: from the harness's own point inside the transport \
                to the wake hook | wake); between two decisions of the controller exactly one actor runs one segment. \
                Forced: for 1-pass driver calls ALL (3+2k)!/(3!*2^k) = 10/210/7560 priority orders over the \
-               live actors (k=1,2 quick; k=3 thorough) x all error multisets x 20 scenario shapes; for full \
-               driver polls a depth-first enumeration of every maximal schedule (k=1,2 quick, 12 shapes x all \
-               multisets; k=3 thorough: the 12 shapes x 1-3 error combinations = 28 scenarios). Free-running: the same \
+               live actors (k=1,2 quick; k=3 thorough) x all error multisets x 34 scenario shapes; for full \
+               driver polls a depth-first enumeration of every maximal schedule (k=1,2 quick, 20 shapes x all \
+               multisets; k=3 thorough: 32 scenarios = 12 of the shapes x 1-3 error combinations + one each for \
+               another-waker and shutdown-begun per side). Free-running: the same \
                scenarios without parking, seed-derived spin delays at the hooks and the start line (2*10^4 \
                quick / 10^6 thorough / 2000 lite). After the join: calls on every handle, 3 more driver \
                polls, calls on every handle again, then handles, connection and SendRequest are dropped. \
@@ -97,13 +116,15 @@ pub fn def() -> PropDef {
                (none when it came from the peer or is a transport Timeout; Drop's close(H3_NO_ERROR) ignored); \
                (3) every later driver call returns the winner and every handle \
                reporting a connection error reports the winner (variant, code, reason); (4) driver Pending + \
-               error stored => its waker was woken at or after the storing segment (free runs: at all). \
+               error stored => the waker handed to that poll was woken at or after the storing segment (free \
+               runs: at all); a wake of the waker of an earlier poll made for another task does not count. \
                Non-trivial distinct = distinct (scenario, executed segment order) resp. (scenario, hook stamp order).",
         assumptions: || {
             vec![
                 "a call's own error (what it raises when it is alone) is measured by a solo run of the same staged stream and cross-checked against the code the scenario table expects".into(),
                 "transport-reported errors: h3::quic allows a stream operation to return ConnectionErrorIncoming while other operations of the connection are still pending (h3-quinn's send_data does: InternalError on a second write before poll_ready); simquic reports the staged error on that stream half only, every time it is used, keeps the connection open and wakes nobody, so the driver learns of it through h3 alone. Expected: cell and every report Remote(InternalError(reason)) + close(0x102) by h3 | Timeout, no close | Remote(ApplicationClose(0x107)), no close".into(),
-                "all driver calls of one scenario are made with one task's waker (one driver task); a scenario in which two tasks poll driver functions of one connection is out of scope".into(),
+                "the raced driver poll and all later driver polls of one scenario are made with one task's waker (B); an EARLIER poll may have been made with another task's waker (A: the driver moved, or a combinator with its own wakers) - std::task::Context allows a different waker on every poll and the last one is the one to wake; two tasks polling driver functions of one connection concurrently is out of scope".into(),
+                "graceful shutdown begun = `closing` set in the shared state by h3's own shutdown()/GOAWAY processing, checked in the set-up together with 'no error stored, nothing closed'; RFC 9114 5.2: a GOAWAY does not close the connection, requests inside the grace set go on, a connection error afterwards is still closed with its code (5.3/8)".into(),
                 "simquic: first close wins, every close call is logged; after its own close the closing side's transport calls fail with a local-close error, which h3 must map to the stored winner".into(),
                 "free-running verdicts do not depend on timing: agreement of all reports with the stored error, its membership in the set of raised errors, 'not certainly stored after another' by relaxed stamps, the close code and the wake rule".into(),
                 "close reason text and additional close calls with the winner already closed are recorded, not judged (QUIC ignores them)".into(),
@@ -231,6 +252,31 @@ pub enum Extra {
     PeerClose,
     /// the driver finds an error of its own in the rest of its poll
     DriverDetect,
+    /// Graceful shutdown has begun before the experiment (`closing` is set in the shared state), the
+    /// staged request streams are in flight and inside the grace set. Server: `shutdown(0)` was called
+    /// and completed (GOAWAY written; after `accept()` handed out the requests its id is the next
+    /// request id, otherwise h3 has accepted nothing itself and announces 0). Client: a full driver that
+    /// was polled before has processed the peer's GOAWAY(next request id) in that poll; otherwise the
+    /// client called its own `shutdown(0)` (GOAWAY written). No error, no close comes out of that.
+    Closing,
+}
+
+/// was the driver call made before (it returned Pending), and with which waker?
+#[derive(Clone, Copy, Debug, PartialEq, Eq, Hash)]
+pub enum Warm {
+    Never,
+    /// with the waker of the same task that makes the raced poll and all later polls
+    Same,
+    /// With ANOTHER waker (A): the driver was polled on one task and then moved to another, or is now
+    /// polled through a combinator that hands out its own wakers. The raced poll and every later poll
+    /// get waker B; only a wake of B reaches the task that polls the driver now.
+    Other,
+}
+
+impl Warm {
+    fn polled(self) -> bool {
+        self != Warm::Never
+    }
 }
 
 pub const PEER_CLOSE_CODE: u64 = rf::H3_GENERAL_PROTOCOL_ERROR;
@@ -240,8 +286,8 @@ const CELL_OBS: &str = "error cell now holds ";
 pub struct Shape {
     pub side: usize,
     pub op: DriverOp,
-    /// the driver call was made before (returned Pending) with the same task's waker
-    pub warm: bool,
+    /// the driver call was made before (returned Pending)
+    pub warm: Warm,
     pub extra: Extra,
 }
 
@@ -261,11 +307,16 @@ impl Shape {
                 DriverOp::AcceptBi => "inner.poll_accept_bi",
                 DriverOp::AcceptRecv => "inner.poll_accept_recv",
             },
-            if self.warm { "polled-before" } else { "never-polled" },
+            match self.warm {
+                Warm::Never => "never-polled",
+                Warm::Same => "polled-before",
+                Warm::Other => "polled-before-with-another-waker",
+            },
             match self.extra {
                 Extra::None => "plain",
                 Extra::PeerClose => "peer-close-delivered",
                 Extra::DriverDetect => "driver-detects-own-error",
+                Extra::Closing => "graceful-shutdown-begun",
             }
         )
     }
@@ -276,10 +327,15 @@ fn shapes(one_pass: bool) -> Vec<Shape> {
     for side in [SERVER, CLIENT] {
         let ops: &[DriverOp] = if one_pass { &[DriverOp::AcceptBi, DriverOp::AcceptRecv] } else { &[DriverOp::Full] };
         for &op in ops {
-            for warm in [false, true] {
-                for extra in [Extra::None, Extra::PeerClose, Extra::DriverDetect] {
+            for warm in [Warm::Never, Warm::Same, Warm::Other] {
+                for extra in [Extra::None, Extra::PeerClose, Extra::DriverDetect, Extra::Closing] {
                     if extra == Extra::DriverDetect && op == DriverOp::AcceptBi {
                         continue; // nothing h3 itself can find in poll_accept_bi
+                    }
+                    if warm == Warm::Other && matches!(extra, Extra::PeerClose | Extra::Closing) {
+                        // the waker matters where the driver can end up Pending: not with the peer's close
+                        // delivered (every poll finds it); the two new dimensions are not multiplied
+                        continue;
                     }
                     v.push(Shape { side, op, warm, extra });
                 }
@@ -294,6 +350,13 @@ fn alphabet(s: &Shape) -> Vec<Kind> {
         // every call that touches the transport raises the peer's close (a dead connection reports that
         // before anything staged on one stream): one representative
         vec![Kind::Unexpected, Kind::Buffered]
+    } else if s.warm == Warm::Other {
+        // whose waker is woken does not depend on what the error is: one call that reads from the
+        // transport, one that does not, one whose error the transport reports
+        vec![Kind::Unexpected, Kind::Buffered, Kind::TransportInternal]
+    } else if s.extra == Extra::Closing {
+        // one call per expected close: 0x105 (with and without a transport call), 0x106, 0x102, none
+        vec![Kind::Unexpected, Kind::Cut, Kind::Buffered, Kind::TransportInternal, Kind::TransportTimeout]
     } else {
         let mut v = vec![Kind::First, Kind::Unexpected, Kind::Forbidden, Kind::Cut, Kind::Qpack, Kind::Buffered];
         v.extend(TRANSPORT_KINDS);
@@ -354,7 +417,7 @@ fn table_full_k3() -> &'static Vec<Entry> {
     static T: OnceLock<Vec<Entry>> = OnceLock::new();
     T.get_or_init(|| {
         let mut v = Vec::new();
-        for (side, warm, extra) in [SERVER, CLIENT].into_iter().flat_map(|s| [true, false].into_iter().flat_map(move |w| [Extra::None, Extra::PeerClose, Extra::DriverDetect].into_iter().map(move |e| (s, w, e)))) {
+        for (side, warm, extra) in [SERVER, CLIENT].into_iter().flat_map(|s| [Warm::Same, Warm::Never].into_iter().flat_map(move |w| [Extra::None, Extra::PeerClose, Extra::DriverDetect].into_iter().map(move |e| (s, w, e)))) {
             {
                 let s = Shape { side, op: DriverOp::Full, warm, extra };
                 let cs: Vec<Vec<Kind>> = if extra == Extra::PeerClose {
@@ -369,6 +432,12 @@ fn table_full_k3() -> &'static Vec<Entry> {
                 }
             }
         }
+        // the driver polled before with another waker; graceful shutdown begun
+        for side in [SERVER, CLIENT] {
+            let last = if side == SERVER { Kind::Cut } else { Kind::DropLast };
+            v.push((Shape { side, op: DriverOp::Full, warm: Warm::Other, extra: Extra::None }, vec![Kind::Unexpected, Kind::Buffered, Kind::TransportInternal]));
+            v.push((Shape { side, op: DriverOp::Full, warm: Warm::Same, extra: Extra::Closing }, vec![Kind::Unexpected, Kind::TransportInternal, last]));
+        }
         v
     })
 }
@@ -380,8 +449,14 @@ fn seg_counts(k: usize) -> Vec<usize> {
 }
 
 fn miri_entries() -> Vec<Entry> {
-    let s = Shape { side: SERVER, op: DriverOp::AcceptBi, warm: false, extra: Extra::None };
-    vec![(s, vec![Kind::Unexpected]), (s, vec![Kind::TransportInternal])]
+    // the lite tier under Miri runs the first two entries only: every dimension is in those
+    let s = Shape { side: SERVER, op: DriverOp::AcceptBi, warm: Warm::Never, extra: Extra::None };
+    vec![
+        (Shape { warm: Warm::Other, ..s }, vec![Kind::Unexpected]),
+        (Shape { extra: Extra::Closing, ..s }, vec![Kind::TransportInternal]),
+        (s, vec![Kind::Unexpected]),
+        (s, vec![Kind::TransportInternal]),
+    ]
 }
 
 fn gens(tier: Tier) -> Vec<Gen> {
@@ -472,6 +547,32 @@ fn finish(tier: Tier, rep: &mut Report) {
     tfloors.push(("transport_error_winner_outcome[free,pending-then-woken]".into(), totals[1]));
     tfloors.push((format!("h3_first_close[{:#x}]", rf::H3_INTERNAL_ERROR), totals[2]));
     tfloors.push((format!("hook_hits[{}]", rr::INJECT), totals[3]));
+    // the driver polled earlier with another task's waker: runs per mode, and runs in which the raced poll
+    // ended Pending and its own waker was woken after the store (the only ones that tell which waker h3
+    // holds); graceful shutdown begun: runs per mode, per way of beginning it, and runs in which h3's
+    // first close carried the winner's code
+    let dims: [u64; 12] = match tier {
+        Tier::Lite => [1, 0, 1, 1, 0, 1, 1, 0, 1, 1, 1, 1],
+        Tier::Quick => [2_000, 2_000, 2_000, 200, 100, 1_000, 5_000, 5_000, 1_000, 10_000, 2_000, 1_000],
+        Tier::Thorough => [10_000, 5_000, 50_000, 500, 1_000, 5_000, 20_000, 10_000, 20_000, 50_000, 5_000, 5_000],
+    };
+    for (k, floor) in [
+        ("other_waker_runs[forced-1pass]", dims[0]),
+        ("other_waker_runs[forced-full]", dims[1]),
+        ("other_waker_runs[free]", dims[2]),
+        ("other_waker_outcome[forced,pending-then-woken]", dims[3]),
+        ("other_waker_outcome[free,pending-then-woken]", dims[4]),
+        ("wakes_of_the_earlier_polls_waker", dims[5]),
+        ("closing_runs[forced-1pass]", dims[6]),
+        ("closing_runs[forced-full]", dims[7]),
+        ("closing_runs[free]", dims[8]),
+        ("closing_close_carries_the_winners_code", dims[9]),
+        ("closing_begun_by[server-shutdown]", dims[10]),
+        ("closing_begun_by[client-shutdown]", dims[10]),
+        ("closing_begun_by[client-processed-peer-goaway]", dims[11]),
+    ] {
+        tfloors.push((k.to_string(), floor));
+    }
     for (k, floor) in &tfloors {
         if rep.get(k) < *floor {
             rep.inconclusive(format!("{} = {} below floor {}", k, rep.get(k), floor));
@@ -798,7 +899,7 @@ fn build(shape: &Shape, kinds: &[Kind], w: &Waker) -> Result<Scenario, String> {
             }
         }
         let mut resolvers: Vec<Resolver> = Vec::new();
-        if shape.op == DriverOp::Full && shape.warm {
+        if shape.op == DriverOp::Full && shape.warm.polled() {
             // the documented path: accept() hands out the requests, one more poll parks the driver
             for _ in 0..kinds.len() + 1 {
                 let mut cx = Context::from_waker(w);
@@ -871,17 +972,49 @@ fn build(shape: &Shape, kinds: &[Kind], w: &Waker) -> Result<Scenario, String> {
         keep = send;
         conn = Conn::Cli(Box::new(c));
     }
-    if shape.warm && !(h3_side == SERVER && shape.op == DriverOp::Full) {
+    // graceful shutdown begun by the peer: the client's full driver reads the GOAWAY in its warm-up poll.
+    // The identifier is the next request id: every request in flight is inside the grace set.
+    let peer_goaway = shape.extra == Extra::Closing && h3_side == CLIENT && shape.op == DriverOp::Full && shape.warm.polled();
+    if peer_goaway {
+        let next_request = 4 * stream_ids.iter().flatten().count() as u64;
+        let mut n = lock(&net);
+        n.raw_write(raw_side, ctrl, &rf::varint_frame(rf::T_GOAWAY, next_request));
+        deliver_all(&mut n, ctrl, raw_side, false);
+    }
+    if shape.warm.polled() && !(h3_side == SERVER && shape.op == DriverOp::Full) {
         match poll_driver(&mut conn, shape.op, w) {
             DriverOut::Pending => {}
             other => return Err(format!("set-up: warm-up poll returned {:?}", other)),
+        }
+    }
+    if shape.extra == Extra::Closing {
+        // graceful shutdown begun by this side (after the warm-up: `shutdown` does not poll the driver)
+        if !peer_goaway {
+            let r = match &mut conn {
+                Conn::Srv(c) => ready(c.shutdown(0), "shutdown")?,
+                Conn::Cli(c) => ready(c.shutdown(0), "shutdown")?,
+            };
+            r.map_err(|e| format!("set-up: shutdown failed: {}", e))?;
+        }
+        let shared = match &conn {
+            Conn::Srv(c) => c.inner.shared.clone(),
+            Conn::Cli(c) => c.inner.shared.clone(),
+        };
+        if !shared.is_closing() {
+            return Err("set-up: graceful shutdown has not begun (closing is not set)".into());
+        }
+        if let Some(e) = shared.get_conn_error() {
+            return Err(format!("set-up: beginning the graceful shutdown raised {:?}", e));
+        }
+        if !lock(&net).close_calls.is_empty() {
+            return Err("set-up: beginning the graceful shutdown closed the connection".into());
         }
     }
     {
         let mut n = lock(&net);
         let mut r = Rng::new(0);
         match shape.extra {
-            Extra::None => {}
+            Extra::None | Extra::Closing => {}
             Extra::PeerClose => {
                 n.close(raw_side, PEER_CLOSE_CODE, b"raw peer close");
                 n.apply(NetAction::DeliverClose, &mut r);
@@ -965,6 +1098,8 @@ pub struct RunResult {
     pub driver_first: DriverOut,
     pub stream_first: Vec<(&'static str, OpOut)>,
     pub wakes_during: u64,
+    /// wakes of the waker of the driver's EARLIER poll (`Warm::Other`) during the experiment
+    pub stale_wakes_during: u64,
     /// (who, call, result) in call order; who = 0 driver, i+1 handle i
     pub later: Vec<(usize, &'static str, OpOut)>,
     pub driver_later: Vec<DriverOut>,
@@ -1000,8 +1135,11 @@ pub fn run_scenario(shape: &Shape, kinds: &[Kind], sched: Sched) -> Result<RunRe
     let k = kinds.len();
     let mode = if matches!(sched, Sched::Forced(_)) { Mode::Forced } else { Mode::Free };
     let rig = Rig::new(mode, k + 1);
+    // B: the waker of the task that makes the raced poll and every later poll
     let w = rig.waker();
-    let sc = build(shape, kinds, &w)?;
+    // A: the waker of an earlier poll on behalf of another task; nobody listens to it any more
+    let stale = rig.stale_waker();
+    let sc = build(shape, kinds, if shape.warm == Warm::Other { &stale } else { &w })?;
     let Scenario { net, h3_side, conn, handles, keep } = sc;
     let shared: Arc<SharedState> = match &conn {
         Conn::Srv(c) => c.inner.shared.clone(),
@@ -1117,6 +1255,7 @@ pub fn run_scenario(shape: &Shape, kinds: &[Kind], sched: Sched) -> Result<RunRe
         return Err("watchdog: no progress for 20 s in a forced schedule (threads released and joined)".into());
     }
     let wakes_during = rig.wakes();
+    let stale_wakes_during = rig.stale_wakes();
     let log = rig.take_log();
     let stored_after_join = stored_error(&shared);
     let mut later = Vec::new();
@@ -1154,7 +1293,7 @@ pub fn run_scenario(shape: &Shape, kinds: &[Kind], sched: Sched) -> Result<RunRe
     }
     let closes_after_drop = h3_closes(&net, h3_side);
     let stored_final = stored_error(&shared);
-    Ok(RunResult { log, free_logs, decisions, stored_seq, stored_after_join, stored_final, driver_first, stream_first, wakes_during, later, driver_later, closes_before_drop, closes_after_drop, panic })
+    Ok(RunResult { log, free_logs, decisions, stored_seq, stored_after_join, stored_final, driver_first, stream_first, wakes_during, stale_wakes_during, later, driver_later, closes_before_drop, closes_after_drop, panic })
 }
 
 // ---------------------------------------------------------------------------------------------
@@ -1171,7 +1310,7 @@ fn own_error(side: usize, kind: Kind, peer_close: bool) -> Result<ConnErr, Strin
         return r;
     }
     let r = (|| {
-        let shape = Shape { side, op: DriverOp::Full, warm: false, extra: if peer_close { Extra::PeerClose } else { Extra::None } };
+        let shape = Shape { side, op: DriverOp::Full, warm: Warm::Never, extra: if peer_close { Extra::PeerClose } else { Extra::None } };
         let w = Waker::noop().clone();
         let mut sc = build(&shape, &[kind], &w)?;
         let (_, out) = first_op(&mut sc.handles[0], kind);
@@ -1225,7 +1364,7 @@ fn driver_own(shape: &Shape) -> Result<Option<ConnErr>, String> {
         let mut sc = build(shape, &[], &w)?;
         let d = poll_driver(&mut sc.conn, shape.op, &w);
         let want: Option<(bool, u64)> = match shape.extra {
-            Extra::None => None,
+            Extra::None | Extra::Closing => None,
             Extra::PeerClose => Some((false, PEER_CLOSE_CODE)),
             Extra::DriverDetect => Some((
                 true,
@@ -1299,6 +1438,7 @@ fn written_schedule(log: &[Event], kinds: &[Kind]) -> Vec<String> {
         match &e.kind {
             EvKind::Release(p) => v.push(format!("{}: {} ({}..)", actor_name(e.actor.unwrap_or(0), kinds), seg_name(p), p)),
             EvKind::Wake => v.push(format!("    driver's waker woken by {}", e.actor.map(|a| actor_name(a, kinds)).unwrap_or_else(|| "?".into()))),
+            EvKind::StaleWake => v.push(format!("    the waker of the driver's EARLIER poll (another task's, nobody listens to it) woken by {}", e.actor.map(|a| actor_name(a, kinds)).unwrap_or_else(|| "?".into()))),
             EvKind::Obs(o) => v.push(format!("    {}", o)),
             EvKind::Finish => v.push(format!("    {} returned", actor_name(e.actor.unwrap_or(0), kinds))),
             EvKind::Hook(_) => {}
@@ -1492,8 +1632,18 @@ fn judge(shape: &Shape, kinds: &[Kind], run: &RunResult, forced: bool, rep: &mut
     for c in run.closes_after_drop.iter().skip(run.closes_before_drop.len()) {
         rep.count(&format!("close_from_drop_ignored[{:#x}]", c.code));
     }
+    let closing = shape.extra == Extra::Closing;
+    if closing {
+        rep.count(&match first {
+            Some(c) => format!("closing_first_close[{:#x}]", c.code),
+            None => "closing_first_close[none]".to_string(),
+        });
+    }
     match (close_code_of(&win), first) {
         (Some((code, reason)), Some(c)) => {
+            if closing && c.code == code {
+                rep.count("closing_close_carries_the_winners_code");
+            }
             if c.code != code {
                 issues.push(Issue { prio: 5, sig: format!("C05/close-code[winner={:#x},closed={:#x}]", code, c.code), detail: format!("winner {:?} but the first close h3 issued is {:#x} {:?}", win, c.code, String::from_utf8_lossy(&c.reason)) });
             } else if c.reason != reason.as_bytes() {
@@ -1503,7 +1653,10 @@ fn judge(shape: &Shape, kinds: &[Kind], run: &RunResult, forced: bool, rep: &mut
         }
         (Some((code, _)), None) => {
             debug_assert!(h3_detected(&win));
-            issues.push(Issue { prio: 5, sig: "C05/close-missing".into(), detail: format!("winner {:?} {} and the driver has been polled 3 more times, but h3 never closed the transport (expected close {:#x})", win, if matches!(win, ConnErr::RemoteInternal(_)) { "is an internal error of the transport, which h3 has to close for with H3_INTERNAL_ERROR," } else { "was detected by h3" }, code) });
+            // a GOAWAY sent or received announces a graceful shutdown; it does not close anything. Same
+            // rule, own signature: the scenario parameter tells the two apart
+            let sig = if closing { "C05/close-missing[graceful-shutdown-begun]" } else { "C05/close-missing" };
+            issues.push(Issue { prio: 5, sig: sig.into(), detail: format!("{}winner {:?} {} and the driver has been polled 3 more times, but h3 never closed the transport (expected close {:#x})", if closing { format!("{}: a graceful shutdown had begun (GOAWAY sent or received, requests still in flight): ", shape.name()) } else { String::new() }, win, if matches!(win, ConnErr::RemoteInternal(_)) { "is an internal error of the transport, which h3 has to close for with H3_INTERNAL_ERROR," } else { "was detected by h3" }, code) });
         }
         (None, Some(c)) => {
             issues.push(Issue { prio: 5, sig: "C05/close-although-winner-came-from-peer".into(), detail: format!("winner {:?} came from the peer / the transport (the connection is gone already) but h3 closed with {:#x}", win, c.code) });
@@ -1513,9 +1666,16 @@ fn judge(shape: &Shape, kinds: &[Kind], run: &RunResult, forced: bool, rep: &mut
     // ---- oracle 4: no lost wake-up. A wake issued before the error was stored cannot announce it (the
     // woken driver looks, finds nothing and parks again): forced runs count the wakes from the segment
     // that performed the first store onwards; free runs cannot order them and count every wake.
+    // "The driver's waker" is the one handed to its most recent poll that returned Pending: the raced
+    // poll's (B). A wake of the waker of an earlier poll made for another task (A, `Warm::Other`)
+    // reaches nobody and is counted apart.
     let wakes_that_count = match store_seg_start {
         Some(s0) => run.log.iter().filter(|e| e.kind == EvKind::Wake && e.step > s0).count() as u64,
         None => run.wakes_during,
+    };
+    let stale_wakes_after_store = match store_seg_start {
+        Some(s0) => run.log.iter().filter(|e| e.kind == EvKind::StaleWake && e.step > s0).count() as u64,
+        None => run.stale_wakes_during,
     };
     let outcome = match &run.driver_first {
         DriverOut::Err(_) => "error-seen-directly",
@@ -1540,9 +1700,18 @@ fn judge(shape: &Shape, kinds: &[Kind], run: &RunResult, forced: bool, rep: &mut
         rep.count(&format!("transport_error_winner[{}]", k.name()));
         rep.count(&format!("transport_error_winner_outcome[{},{}]", mode, outcome));
     }
+    if shape.warm == Warm::Other {
+        let mode = if forced { "forced" } else { "free" };
+        rep.count(&format!("other_waker_outcome[{},{}]", mode, outcome));
+        if stale_wakes_after_store > 0 {
+            // on a correct h3: the wake came before the raced poll registered its own waker, and that
+            // poll then found the error itself
+            rep.count(&format!("other_waker_runs_with_the_earlier_waker_woken_after_the_store[{}]", outcome));
+        }
+    }
     if outcome == "lost-wakeup" {
         rep.count(&format!("lost_wakeup_in[{}]", shape.name()));
-        let (pat, mini) = lost_wakeup_pattern(run, kinds, store_seg_start, transport_winner.is_some());
+        let (pat, mini) = lost_wakeup_pattern(run, kinds, store_seg_start, transport_winner.is_some(), stale_wakes_after_store);
         issues.push(Issue {
             prio: 0,
             sig: format!("C05/lost-wakeup[{}]", pat),
@@ -1607,7 +1776,19 @@ fn free_possible_winners(run: &RunResult, own: &[ConnErr], d_own: &Option<ConnEr
 
 /// Where did the first store and the wake calls fall relative to the driver's last pass through
 /// `poll_connection_error`? (positional hook names; today pce:0.. is the check, pce:1.. the register)
-fn lost_wakeup_pattern(run: &RunResult, kinds: &[Kind], store_seg_start: Option<u64>, transport_winner: bool) -> (String, String) {
+fn lost_wakeup_pattern(run: &RunResult, kinds: &[Kind], store_seg_start: Option<u64>, transport_winner: bool, stale_wakes_after_store: u64) -> (String, String) {
+    if stale_wakes_after_store > 0 {
+        // the error WAS announced after it was stored - to the waker of an earlier poll of the driver
+        // (another task's), not to the waker of the poll that returned Pending last
+        return (
+            "stale-waker-of-an-earlier-poll-woken-instead-of-the-last-polled-one".into(),
+            format!(
+                "driver: polled with waker A => Pending | driver: polled with waker B (the task it lives on now) => Pending | handle: store, wake => A woken {} time(s), B never{}",
+                stale_wakes_after_store,
+                if store_seg_start.is_some() { " (full order in the case)" } else { " (free-running; hook stamps in the case)" }
+            ),
+        );
+    }
     let canonical = "pce:1<store<wake<register".to_string();
     // the storing call returned without ever reaching the wake hook, and the error it stored is one the
     // transport reported on its stream: another defect than a wake that came too early
@@ -1690,9 +1871,30 @@ fn account_transport(kinds: &[Kind], mode: &str, rep: &mut Report) {
     }
 }
 
+/// coverage of the two set-up dimensions: another waker in the driver's earlier poll; graceful shutdown begun
+fn account_dimensions(shape: &Shape, mode: &str, rep: &mut Report) {
+    if shape.warm == Warm::Other {
+        rep.count(&format!("other_waker_runs[{}]", mode));
+    }
+    if shape.extra == Extra::Closing {
+        rep.count(&format!("closing_runs[{}]", mode));
+        rep.count(&format!(
+            "closing_begun_by[{}]",
+            match (shape.side, shape.op, shape.warm.polled()) {
+                (SERVER, _, _) => "server-shutdown",
+                (_, DriverOp::Full, true) => "client-processed-peer-goaway",
+                _ => "client-shutdown",
+            }
+        ));
+    }
+}
+
 fn account_forced(shape: &Shape, kinds: &[Kind], run: &RunResult, set: &str, rep: &mut Report) {
     rep.count("forced_schedules");
-    account_transport(kinds, if set.contains("[full") { "forced-full" } else { "forced-1pass" }, rep);
+    let mode = if set.contains("[full") { "forced-full" } else { "forced-1pass" };
+    account_transport(kinds, mode, rep);
+    account_dimensions(shape, mode, rep);
+    rep.add("wakes_of_the_earlier_polls_waker", run.stale_wakes_during);
     for (p, n) in rr::hook_hits(&run.log) {
         rep.add(&format!("hook_hits[{}]", p), n);
     }
@@ -1825,6 +2027,7 @@ fn free_case(seed: u64, rep: &mut Report) {
     rep.count("free_iterations");
     rep.count(&format!("free_iterations[k={}]", k));
     account_transport(&kinds, "free", rep);
+    account_dimensions(&shape, "free", rep);
     for l in &run.free_logs {
         for (_, p) in l {
             if *p != rr::END && *p != rr::START {
